@@ -10,7 +10,11 @@
 //	    lower threshold, usage-driven policy, the real dispatcher, the periodic
 //	    job on a mock clock) over generated directories.
 //	(c) c10c_test.go  POST /forcecleanup on an in-process origin blob server
-//	    with a real write-back manager and a scripted backend.
+//	    with a real write-back manager and one scripted backend per namespace
+//	    (blobs owed to one or two namespaces).
+//	(r) c10r_test.go  last-access bookkeeping across a reload of the file map
+//	    (restart, refused delete of a persisted file, LRU eviction of a
+//	    persisted file), judged by the real cleanup pass.
 package c10
 
 import (
@@ -42,15 +46,20 @@ func TestC10(t *testing.T) {
 			"true/false/absent) x generated CleanupConfig x pass {normal via the real dispatcher, ttlBasedCleanup, aggressive TTL with lower threshold and "+
 			"injected usage, usage-driven policy with injected usage, real dispatcher in aggressive mode, periodic job on a mock ticker} x {same store "+
 			"instance, fresh instance}; non-trivial = >=1 file deleted and >=1 persisted file that the pass would otherwise have deleted. "+
-			"(c) forced-cleanup scenarios on an in-process blob server: 3-6 blobs (persisted via public upload / duplicate upload with delay, "+
-			"unpersisted via transfer), backend failing then healthy (or partially failing / healthy from the start); non-trivial = >=1 persisted blob "+
-			"survived a failing backend and >=1 was deleted after write-back. distinct = distinct generated case.")
+			"(c) forced-cleanup scenarios on an in-process blob server: 3-6 blobs (persisted via public upload under one or two namespaces - the second through "+
+			"the upload-conflict path, giving two pending write-back tasks -, duplicate upload with delay, unpersisted via transfer), one scripted backend per "+
+			"namespace, six fault scripts (all failing then healthy, first/second backend failing, partially failing, healthy from the start, failing twice); "+
+			"non-trivial = >=1 persisted blob survived a failing backend and >=1 was deleted after write-back. "+
+			"(r) 2-5 files created through the store on a mock clock, aged to TTI/2..3*TTI, entries dropped from the file map (restart / refused persisted "+
+			"delete / LRU eviction of persisted files), accessed again (read, write, unpersist) seconds to minutes after the reload, pause of 30 s..TTI+400 s, "+
+			"then the real cleanup pass; non-trivial = >=1 access after a reload and >=2 files judged. distinct = distinct generated case.")
 	defer run.Finish()
 	run.Assume("file presence, bytes and sidecars are observed directly on disk (os.Stat/ReadFile), not through the store")
 	run.Assume("(a) the order of the file map is read through the read-only probe base.VerifC10MapOrder; recency rules are checked on it step by step: a read/write/metadata-write/move/create puts the entry first, a peek (stat/path/metadata read) may or may not, nothing else reorders")
 	run.Assume("(b) files without a last-access sidecar may or may not be removed by the idle rule (DESIGN 3.40); ages/idle times are never placed within 3 s of a limit")
 	run.Assume("(b) the amount the usage-driven pass deletes is only bounded loosely (statement constrains order and protection, not the amount); deleting below the lower threshold is counted, not flagged")
-	run.Assume("(c) the scripted backend and the sqlite-backed write-back store are trusted fakes/outer boundaries")
+	run.Assume("(c) the scripted backends and the sqlite-backed write-back store are trusted fakes/outer boundaries; 'awaiting write-back' = the persist mark is set when the pass starts; a mark cleared by a partially successful write-back is counted, not flagged")
+	run.Assume("(r) the last-access record has a documented 5 min resolution: a file counts as recently used when its true idle time + 5 min < TTI, as idle when true idle time > TTI; in between either outcome")
 
 	base := ev.TempDir(t, "c10-")
 	replay := run.ReplayCase()
@@ -59,17 +68,21 @@ func TestC10(t *testing.T) {
 		f  func()
 	}
 	var jobs []job
-	for i := 0; i < run.N(1500, 20000); i++ {
+	for i := 0; i < run.N(330, 20000); i++ {
 		i := i
 		jobs = append(jobs, job{fmt.Sprintf("a%d", i), func() { partA(t, run, base, i) }})
 	}
-	for i := 0; i < run.N(1800, 25000); i++ {
+	for i := 0; i < run.N(400, 25000); i++ {
 		i := i
 		jobs = append(jobs, job{fmt.Sprintf("b%d", i), func() { partB(t, run, base, i) }})
 	}
-	for i := 0; i < run.N(16, 160); i++ {
+	for i := 0; i < run.N(12, 180); i++ {
 		i := i
 		jobs = append(jobs, job{fmt.Sprintf("c%d", i), func() { partC(t, run, base, i) }})
+	}
+	for i := 0; i < run.N(260, 12000); i++ {
+		i := i
+		jobs = append(jobs, job{fmt.Sprintf("r%d", i), func() { partR(t, run, base, i) }})
 	}
 	ch := make(chan job, 64)
 	var wg sync.WaitGroup
